@@ -323,7 +323,8 @@ def grow_protocol(ctx):
                   "is released and continue on the old block", fn.where(unl[0]) if unl else fn.where(), fn=fn)
     for fn in flow._shapes(ctx, V + "do_grow"):
         # destination index: (rehash(key) & new_block->mask) - a '&' node with the mask field as one operand and the recomputed hash as the other
-        ands = [e for e, n_ in enumerate(fn.nodes) if n_["k"] == "bin" and n_["op"] in ("&", "%") and any(fn.nodes[k]["k"] == "member" and fn.nodes[k].get("leaf") == "mask" for k in fn.kids(e))]
+        ands = [e for e, n_ in enumerate(fn.nodes) if n_["k"] == "bin" and n_["op"] in ("&", "%") and len(fn.kids(e)) == 2 and
+                    any(flow.has_src(fn, k, "field:mask") for k in fn.kids(e))]   # operands by their sources: a mask cached in a local is the same thing
         ok = len(ands) >= 2 and all(fn.nodes[e]["op"] == "&" and flow.has_src(fn, e, "call:rehash") for e in ands)
         decls = ands
         ctx.check(ok, rid, V + "do_grow#dest=h&new-mask", "items are re-inserted at new_buckets[rehash(key) & new_block->mask] (%d sites)" % len(ands),
@@ -334,7 +335,8 @@ def grow_protocol(ctx):
     # the lookup side uses the same mapping
     for f in ("try_get_value", "lock_bucket", "do_extract"):
         for fn in flow._shapes(ctx, V + f):
-            ands = [e for e, n_ in enumerate(fn.nodes) if n_["k"] == "bin" and n_["op"] in ("&", "%") and any(fn.nodes[k]["k"] == "member" and fn.nodes[k].get("leaf") == "mask" for k in fn.kids(e))]
+            ands = [e for e, n_ in enumerate(fn.nodes) if n_["k"] == "bin" and n_["op"] in ("&", "%") and len(fn.kids(e)) == 2 and
+                    any(flow.has_src(fn, k, "field:mask") for k in fn.kids(e))]   # operands by their sources: a mask cached in a local is the same thing
             decls = ands
             ok = bool(ands) and all(fn.nodes[e]["op"] == "&" and (flow.has_src(fn, e, "param#0") or flow.has_src(fn, e, "call:operator()")) for e in ands)
             ctx.check(ok, rid, V + f + "#bucket=h&mask", "bucket index = hash & block->mask",
